@@ -125,6 +125,10 @@ def run_unit(unit, fs, seed=0, rlimit=None, keep=True, tag=""):
         if "VX.canary" in labs:
             res["canary_failed"] = True
             continue
+        if not labs and fr is not None and fr.get("mode") == "verify":
+            # an unlabelled failure inside a function under contract (a proof hint that no longer holds, a callee
+            # precondition without label, arithmetic): the function's own contract clauses are not established
+            entry["implied_labels"] = [lab for lab, lns in meta["label_lines"].items() if any(fr["lo"] <= ln <= fr["hi"] for ln in lns)]
         low = msg.lower()
         if "rlimit" in low or "resource limit" in low or "timed out" in low or "timeout" in low:
             res["undecided"].append(entry); continue
